@@ -11,6 +11,7 @@ import hashlib
 import json
 import os
 import random
+import re
 import shutil
 import sqlite3
 import traceback
@@ -225,6 +226,14 @@ class Runner:
                 t.ops.append(f"d{op[1]}")
             t.outcomes.append(r)
             t.commits.append(n)
+        elif kind == "i":
+            # deliver row op[1]; ANOTHER worker's recovery sweep runs right after the op[2]-th commit of that delivery
+            # (implementation-only op: the model's sweeps sit between whole deliveries, see Trace.model_free)
+            code = {i_: c for i_, c, _ in e.pending()}.get(op[1])
+            msg = code
+            r, n = e.interpose(op[1], op[2])
+            t.ops.append(f"i{op[1]}.{op[2]}" if not r.endswith(":no-sweep") else f"d{op[1]}")
+            t.outcomes.append(r.replace(":no-sweep", ""))
         elif kind == "c":
             e.cancel()
             t.ops.append("c")
@@ -387,18 +396,68 @@ def mon_c02_reexec(t: Trace, crashes: int = 0) -> list[tuple[str, str]]:
     """a task whose result has been recorded is never executed again (within one loop iteration)"""
     hits = []
     recorded: dict[tuple[int, int], str] = {}
+    last_rearm: dict[tuple[int, int], int] = {}
     for k, _, kind, payload in iterations(t):
         if kind == "rearm":
             recorded.pop(payload, None)
+            last_rearm[payload] = k
         else:
             s, tt, n, _seen = payload
             if (s, tt) in recorded and crashes == 0:
-                hits.append((f"reexecuted-after:{recorded[(s, tt)]}",
+                # F4 family: the RunTask that executed was already queued BEFORE the jump re-armed this task - a message
+                # of the previous loop iteration (no iteration tag) running the task of the new one a second time
+                stale = ""
+                m_ = re.match(r"[dxn](\d+)", t.ops[k - 1])
+                if m_ and (s, tt) in last_rearm:
+                    before = {int(q.split(":")[0]) for q in parse_line(t.lines[last_rearm[(s, tt)] - 1])["queue"]}
+                    if int(m_.group(1)) in before:
+                        stale = ":stale-runtask-from-before-rearm"
+                hits.append((f"reexecuted-after:{recorded[(s, tt)]}{stale}",
                              f"task {s}.{tt} executed again (execution #{n}) after its result {recorded[(s, tt)]} was recorded, op {t.ops[k - 1]}"))
             oc = t.spec.stages[s].tasks[tt][min(n - 1, len(t.spec.stages[s].tasks[tt]) - 1)]
             if oc[0] in RECORDED:
                 recorded[(s, tt)] = oc[0]
     return hits
+
+
+def split_skip_targets(spec: Spec) -> set[int]:
+    """stages an OR-split decides to SKIP (constant conditions; 'no branch activated -> the first one') that also have
+    another upstream: whether such a stage is skipped or run depends on whether the split's SkipStage or the other
+    upstream's StartStage is handled first (F42)"""
+    out: set[int] = set()
+    n = len(spec.stages)
+    for u, st in enumerate(spec.stages):
+        if not st.split:
+            continue
+        down = [d for d in range(n) if u in spec.stages[d].reqs]
+        act = [d for d in down if st.split.get(d, st.split.get(str(d), True)) in (True, None)]
+        if not act and down:
+            act = [down[0]]
+        for d in down:
+            if d not in act and len(spec.stages[d].reqs) > 1:
+                out.add(d)
+    return out
+
+
+def parallel_jump(spec: Spec) -> bool:
+    """some task jumps to a stage that is neither its own stage, an ancestor nor a descendant of it: the jump lands in a
+    PARALLEL branch, and what it finds there (not started yet / running / done) depends on how far that branch got - the
+    program itself races, under any engine; such workflows have no schedule-independent outcome to compare"""
+    n = len(spec.stages)
+    anc: list[set[int]] = []
+    for i in range(n):
+        a: set[int] = set()
+        for u in spec.stages[i].reqs:
+            a |= {u} | anc[u]
+        anc.append(a)
+    for i, st in enumerate(spec.stages):
+        for script in st.tasks:
+            for o in script:
+                if o[0] == "J":
+                    tgt = int(o[1:])
+                    if tgt < n and tgt != i and tgt not in anc[i] and i not in anc[tgt]:
+                        return True
+    return False
 
 
 def mon_c02_outcome(t: Trace) -> list[tuple[str, str]]:
@@ -408,15 +467,29 @@ def mon_c02_outcome(t: Trace) -> list[tuple[str, str]]:
     ref = t.meta.get("fifo_ref")
     if not ref or not ref.get("healthy") or not t.quiesced:
         return []
+    if parallel_jump(t.spec):
+        return []
+    if any(x in ("TERMINAL", "STOPPED", "CANCELED") for x in ref["stages"]):
+        return []      # the in-order run itself halted (e.g. a jump refused by its limit ends its stage TERMINAL): a halting
+                       # result racing the sibling branches, the same exclusion as for T / X task results
     got = outcome_of(t)
     hits = []
-    if got["wf"] != ref["wf"] or got["stages"] != ref["stages"]:
+    if any(i < len(got["stages"]) and got["stages"][i] != ref["stages"][i] for i in split_skip_targets(t.spec)):
+        i = [i for i in sorted(split_skip_targets(t.spec)) if got["stages"][i] != ref["stages"][i]][0]
+        hits.append(("outcome-differs-from-fifo:orsplit-skip-overtaken-by-other-upstream",
+                     f"schedule {t.tag}: stage {i} is {got['stages'][i]} here and {ref['stages'][i]} in order: an OR-split upstream decided to skip it, "
+                     f"another upstream's StartStage was handled before the SkipStage; final {got['wf']} {got['stages']} vs {ref['wf']} {ref['stages']}"))
+    elif got["wf"] != ref["wf"] or got["stages"] != ref["stages"]:
         fin = t.final()
         cause = wedge_cause(t, fin) if fin["wf"] not in COMPLETE else (("wait-budget:" + wedge_cause(t, parse_line(t.lines[exhausted(t)]))) if exhausted(t) is not None else "final-statuses")
         hits.append((f"outcome-differs-from-fifo:{cause}", f"schedule {t.tag}: final {got['wf']} {got['stages']} vs in-order run {ref['wf']} {ref['stages']}"))
     elif got["execs"] != ref["execs"]:
         jumped = any(c.startswith("JS.") for k in range(len(t.ops)) for c in op_codes(t, k))
-        hits.append(("executions-differ-from-fifo" + (":jump" if jumped else ""), f"schedule {t.tag}: task executions {got['execs']} vs in-order run {ref['execs']}"))
+        rearmed = any(ent[0] == "S" and new == "NOT_STARTED" for ent, old, new in t.audit)
+        hits.append(("executions-differ-from-fifo" + ((":jump" if rearmed else ":jump-forward") if jumped else ""), f"schedule {t.tag}: task executions {got['execs']} vs in-order run {ref['execs']}"))
+    elif got["tasks"] != ref["tasks"]:
+        pairs = sorted({f"{a}-vs-{b}" for x, y in zip(got["tasks"], ref["tasks"]) for a, b in zip(x, y) if a != b})
+        hits.append(("task-statuses-differ-from-fifo:" + "+".join(pairs), f"schedule {t.tag}: same workflow / stage statuses and executions, but task statuses {got['tasks']} vs in-order run {ref['tasks']}"))
     return hits
 
 
@@ -443,6 +516,8 @@ def wedge_cause(t: Trace, fin: dict) -> str:
             seen_js.add(t.ops[k][1:])
             src = int(m.split(".")[1])
             pre = parse_line(t.lines[k])
+            if int(t.ops[k][1:]) in pre.get("processed", []):
+                continue        # a redelivery of a jump that was already performed (crash after its commit): dedup drops it, rightly
             if pre["stages"][src]["status"] == "RUNNING" and t.audit_len[k + 1] == t.audit_len[k]:
                 return "jump-request-ignored-although-source-running"
     jumped = any(c.startswith("JS.") for k in range(len(t.ops)) for c in op_codes(t, k))
@@ -480,7 +555,8 @@ def wedge_cause(t: Trace, fin: dict) -> str:
         # CompleteStage) overtaken by the re-arm acts on the new iteration; messages carry no iteration tag
         return "jump-loop-stale-message"
     shape = "+".join(sorted({s["status"] for s in fin["stages"]}))
-    return ("jump:" if jumped else "") + shape
+    # a jump that re-armed some stage (a loop: F4 family, no iteration tag on messages) vs. a purely forward jump
+    return (("jump:" if rearmed else "jump-forward:") if jumped else "") + shape
 
 
 def mon_c05(t: Trace) -> list[tuple[str, str]]:
@@ -523,6 +599,9 @@ def in_effect_finished(stage: dict, idx: int, queue: list[str]) -> bool:
     if any(ts in ("TERMINAL", "STOPPED", "CANCELED") for ts in stage["tasks"]):
         return True    # its outcome (failure) was already decided by a recorded task result
     pending_ct = {int(q.split(":")[1].split(".")[2].split("/")[0]) for q in queue if q.split(":")[1].startswith(f"CT.{idx}.")}
+    if any(q.split(":")[1].startswith(f"CT.{idx}.") and q.split(":")[1].split("/")[0].split(".")[-1] in ("TERMINAL", "STOPPED", "CANCELED")
+           for q in queue):
+        return True    # the failing result is already reported (its CompleteTask is queued): same decided outcome
     for ti, ts in enumerate(stage["tasks"]):
         if ts in COMPLETE:
             continue
@@ -725,6 +804,10 @@ def mon_c18(t: Trace) -> list[tuple[str, str]]:
     if effective >= suspends:
         if st["status"] == "SUSPENDED":
             hits.append((f"signal-lost:{effective}of{suspends}", f"{effective} effective signal(s) for {suspends} suspension(s) but stage {tgt} is still SUSPENDED at quiescence"))
+        elif st["status"] == "SUCCEEDED" and execs > suspends + 1:
+            # script U^k S: k suspending executions + the final one; anything more is a second resume for one signal
+            hits.append((f"resume-count:{execs - suspends - 1}-extra-execution(s)",
+                         f"stage {tgt}: the suspending task was executed {execs} times for {suspends} suspension(s): one signal resumed the stage more than once"))
     else:
         if st["status"] != "SUSPENDED" and fin["wf"] != "CANCELED" and not fin["canceled"]:
             hits.append((f"resumed-without-signal:{effective}of{suspends}", f"only {effective} effective signal(s) for {suspends} suspension(s) but stage {tgt} ended {st['status']}"))
@@ -807,10 +890,24 @@ def produce(prop: str, rng: random.Random, wd: Path, j: int) -> dict:
             stages.append(StageSpec(reqs=[0, 1], tasks=[["S"]]))
         spec = Spec(stages, wf_maxj=rng.choice([None, 2, 3]))
         fam = "interf"
+    stale = prop in ("C03", "C02", "C05") and not directed and rng.random() < (0.3 if prop == "C03" else 0.06)
+    if stale:
+        # stale-start family: T -> A -> B (each with ONE upstream), T -> C where C jumps back to T (the loop resets T, A, B, C
+        # to NOT_STARTED); StartStage rows are often delivered without ack, so a copy pushed in an earlier iteration comes
+        # back while its upstream is NOT_STARTED / RUNNING again: the start handler must re-check the upstream and drop it
+        back = rng.choice([["J0", "S"], ["J0", "J0", "S"], ["J1", "S"]])
+        stages = [StageSpec(tasks=[["S"]]), StageSpec(reqs=[0], tasks=[list(rng.choice([["S"], ["R", "S"]]))]),
+                  StageSpec(reqs=[1], tasks=[["S"]]), StageSpec(reqs=[0], tasks=[back])]
+        if rng.random() < 0.4:
+            stages.append(StageSpec(reqs=[2], tasks=[["S"]]))
+        spec = Spec(stages, wf_maxj=rng.choice([None, 2, 3]))
+        fam = "stale-start"
     r = Runner(spec, wd)
     mode = rng.choice(["fifo", "rand", "rand", "dup", "any"])
     if directed:
         mode = rng.choice(["rand", "dup"])
+    if stale:
+        mode = "dup"
     respecting = mode != "any"
     nested_p = 0.0 if mode == "fifo" else (0.6 if directed else 0.25)
     cancel_at = rng.randint(0, 25) if (prop == "C17" or rng.random() < 0.15) else None
@@ -829,8 +926,15 @@ def produce(prop: str, rng: random.Random, wd: Path, j: int) -> dict:
             # a second worker handles other pending messages WHILE this task executes (RunTask's two phases)
             inner = [x[0] for x in rng.sample(others, min(len(others), rng.choice([1, 1, 2])))]
             r.apply(("n", rid, inner))
-        elif mode == "dup" and rng.random() < 0.2:
+        elif mode == "dup" and rng.random() < (0.5 if (stale and rcode.startswith("SS.")) else 0.2):
             r.apply(("x", rid))
+        elif prop == "C17" and rcode == "XW" and rng.random() < 0.35:
+            # the worker dies while handling the cancel request: before anything is durable, or between the commit that
+            # sets the flag and the commit that fans CancelStage / CompleteWorkflow out; the fresh worker sweeps, the
+            # un-acked CancelWorkflow comes back after the lock lapses (at once or a few deliveries later)
+            r.apply(("k", rid, rng.choice([0, 1, 1, 2])))
+            r.apply(("w",))
+            hold_then_expire(r, rng.choice([0, 0, 1, 2, 4]))
         else:
             r.apply(("d", rid))
         step += 1
@@ -1049,6 +1153,30 @@ def produce_c10(rng: random.Random, wd: Path, tier: str) -> list[dict]:
         before = ref.op_msg[j] if j < len(ref.op_msg) else "end"
         t.meta = {"ref": ref_out, "kind": "healthy", "sweep_before": before or "inj"}
         out.append(pack(t))
+    # a sweep by another worker INSIDE a delivery (after its k-th commit): a healthy run again, nothing may change
+    for j in (list(range(steps)) if tier == "thorough" else rng.sample(range(steps), min(steps, 5))):
+        for k in ((0, 1, 2) if tier == "thorough" else (rng.choice([1, 1, 2, 0]),)):
+            r = Runner(spec, wd)
+            step = 0
+            while step < j:
+                p = r.eligible(True)
+                if not p:
+                    break
+                r.apply(("d", p[0][0]))
+                step += 1
+            p = r.eligible(True)
+            if not p:
+                r.finish()
+                continue
+            rid, code, _ = p[0]
+            r.apply(("i", rid, k))
+            r.drain(None, "fifo")
+            t = r.finish()
+            if not any(o[0] == "i" for o in t.ops):
+                continue          # the delivery has fewer than k commits: same as the reference
+            t.tag = f"sweep-inside@{k}"
+            t.meta = {"ref": ref_out, "kind": "healthy", "sweep_before": f"inside-{code.split('.')[0]}@{k}.{code}"}
+            out.append(pack(t))
     # after a crash: one sweep vs two sweeps in a row (before the dead worker's lock lapses) must end the same,
     # and at most the in-flight step is repeated
     if steps:
@@ -1173,23 +1301,7 @@ def replay_trace(spec: Spec, ops: list[str], wd: Path) -> Trace:
     """Re-run a recorded op list against the real engine."""
     r = Runner(spec, wd)
     for o in ops:
-        if o == "c":
-            r.apply(("c",))
-        elif o == "w":
-            r.apply(("w",))
-        elif o[0] == "d":
-            r.apply(("d", int(o[1:])))
-        elif o[0] == "x":
-            r.apply(("x", int(o[1:])))
-        elif o[0] == "k":
-            a, b = o[1:].split(".")
-            r.apply(("k", int(a), int(b)))
-        elif o[0] == "g":
-            a, b = o[1:].split(".")
-            r.apply(("g", int(a), b == "1"))
-        elif o[0] == "n":
-            xs = [int(x) for x in o[1:].split(".")]
-            r.apply(("n", xs[0], xs[1:]))
+        _apply_str(r, o)
     return r.finish()
 
 
@@ -1283,6 +1395,9 @@ def consume(ctx, prop: str, traces: list[Trace], mons) -> None:
         for o in t.outcomes:
             if o != "ok":
                 ctx.tag("outcome:" + o)
+        if any(o[0] == "i" for o in t.ops):
+            ctx.tag("model-free:interposed-sweep")
+            continue      # a sweep INSIDE a delivery is not an op of the model: monitors only
         inputs.append(t.to_json())
         lines.append(t.request())
         impl.append(t.expected())
@@ -1318,9 +1433,9 @@ def _apply_str(r: "Runner", o: str) -> None:
         r.apply((o,))
     elif o[0] in ("d", "x"):
         r.apply((o[0], int(o[1:])))
-    elif o[0] == "k":
+    elif o[0] in ("k", "i"):
         a, b = o[1:].split(".")
-        r.apply(("k", int(a), int(b)))
+        r.apply((o[0], int(a), int(b)))
     elif o[0] == "g":
         a, b = o[1:].split(".")
         r.apply(("g", int(a), b == "1"))
